@@ -925,6 +925,9 @@ class SymTok:
     """Fork to the concrete domain member."""
     return self.domain[engine().choose(self.z)]
 
+  def concrete_index(self, values):
+    return values[engine().choose(self.z)]
+
   def __deepcopy__(self, memo):
     return self
 
